@@ -163,6 +163,27 @@ func (s c01Spec) ops(w *model.World) (out []opx) {
 		}
 		out = append(out, txnOp(w, []model.Act{{Op: "del", Off: r}}, false))
 	}
+	// drop the column and create it again under the same name: every row then holds
+	// nothing in it ("columns created after rows already exist")
+	if !isKey && s.kind != "expire" {
+		out = append(out, opx{label: "dropColumn(v)+createColumn(v:" + s.kind + ")", run: func() []eng.Violation {
+			w.C.DropColumn("v")
+			for i, c := range w.M.Cols {
+				if c.Name == "v" {
+					w.M.Cols = append(w.M.Cols[:i:i], w.M.Cols[i+1:]...)
+					break
+				}
+			}
+			for _, r := range w.M.Live {
+				delete(r.V, "v")
+			}
+			delete(w.M.Ghost, "v")
+			if err := w.CreateColumn(model.ColDef{Name: "v", Kind: s.kind}); err != nil {
+				return []eng.Violation{{Assert: "createcolumn", Witness: "CreateColumn failed", Detail: err.Error()}}
+			}
+			return nil
+		}})
+	}
 	if isKey || len(rows) == 0 {
 		return out
 	}
